@@ -434,7 +434,8 @@ pub fn mutate_havoc(seed: &Seed, others: &[Seed], rng: &mut Rng) -> (Vec<u8>, Mu
 // amplifier families (C07): a hostile structure replicated k times
 // ---------------------------------------------------------------------------------------
 
-pub const AMPLIFIERS: [&str; 14] = [
+pub const AMPLIFIERS: [&str; 16] = [
+    "many_stsd_esds_overrun", "many_trafs_long_run",
     "zero_size_child_in_moov", "zero_size_child_in_trak", "zero_size_child_in_stbl", "zero_size_child_in_udta", "zero_size_child_in_moof",
     "tiny_boxes_top", "tiny_children_in_moov", "many_traks_overlapping_avcc", "many_traks_overlapping_hvcc", "count_max_no_payload",
     "trun_count_max_no_fields", "nested_overrun_chain", "many_meta_rewind", "emsg_many",
@@ -563,9 +564,13 @@ pub fn amplifier(family: &str, target: usize, rng: &mut Rng) -> Vec<u8> {
             top.push(mv);
             let mut moof = BoxT::new(b"moof");
             moof.push(refenc::enc_mfhd(0, 0, 1));
-            for _ in 0..k {
+            for j in 0..k {
                 let mut traf = BoxT::new(b"traf");
-                traf.push(refenc::enc_tfhd(&refenc::TfhdF { track_id: 1, ..Default::default() }));
+                // every second run has a fragment-level default sample size and duration (so that
+                // "no per-sample size" is a complete description of its samples)
+                // (the first run is the one every large sample id resolves to: it has the defaults)
+                let dflt = if j % 2 == 0 { Some(3) } else { None };
+                traf.push(refenc::enc_tfhd(&refenc::TfhdF { track_id: 1, default_size: dflt, default_duration: dflt, ..Default::default() }));
                 let mut tr = refenc::enc_trun(&refenc::TrunF { count: 0, ..Default::default() });
                 if let Some(Part::Data(pb)) = tr.parts.first_mut() {
                     let l = pb.b.len();
@@ -597,6 +602,84 @@ pub fn amplifier(family: &str, target: usize, rng: &mut Rng) -> Vec<u8> {
                 }
             }
             return ser.bytes;
+        }
+        "many_stsd_esds_overrun" => {
+            // K sample description boxes in one stbl (the last one wins), each with an esds whose
+            // ES_Descriptor length reaches to the end of the file, followed by filler that parses
+            // as a long chain of empty descriptors: every esds walks the whole filler.
+            let k = (target / 260).max(2);
+            let mut m = movie.clone();
+            m.tracks.clear();
+            m.tracks.push(base_trak(rng, 1, Codec::Aac));
+            let offs: Vec<Vec<u64>> = m.tracks.iter().map(|t| vec![0u64; t.layout.chunks.len()]).collect();
+            let mut mv = build_moov(&m, &offs, None);
+            if let Some(stbl) = mv.find_mut(&[b"trak", b"mdia", b"minf", b"stbl"]) {
+                let stsd = stbl.children().into_iter().find(|c| &c.typ == b"stsd").cloned();
+                if let Some(mut stsd) = stsd {
+                    // 4-byte (padded) ES_Descriptor length so that it can be patched in place
+                    if let Some(mp4a) = stsd.find_mut(&[b"mp4a"]) {
+                        let e = refenc::EsdsF { es_id: 1, object_type: 0x40, stream_type: 5, aot: 2, freq_index: 3, chan: 2, pad: [4, 0, 0, 0], ..Default::default() };
+                        mp4a.parts.retain(|p| !matches!(p, Part::Child(_)));
+                        let mut esds = refenc::enc_esds(&e);
+                        // one more descriptor after SLConfig: unknown tag, 4-byte length patched below so
+                        // that skipping it lands exactly on the filler
+                        if let Some(Part::Data(pb)) = esds.parts.first_mut() {
+                            pb.b.extend_from_slice(&[0x7F, 0x80, 0x80, 0x80, 0x00]);
+                        }
+                        mp4a.push(esds);
+                    }
+                    for _ in 1..k {
+                        stbl.parts.insert(0, Part::Child(stsd.clone()));
+                    }
+                    if let Some(first) = stbl.find_mut(&[b"stsd"]) {
+                        *first = stsd.clone();
+                    }
+                }
+            }
+            let mut filler = PB::new();
+            for _ in 0..(target / 4).max(8) {
+                filler.raw(&[0xFF, 0x00]);
+            }
+            let mut ser = refenc::serialize(&[ftyp.clone(), mv, BoxT::leaf(b"free", filler)]);
+            let n = ser.bytes.len();
+            let enc4 = |len: u32| [0x80 | ((len >> 21) & 0x7F) as u8, 0x80 | ((len >> 14) & 0x7F) as u8, 0x80 | ((len >> 7) & 0x7F) as u8, (len & 0x7F) as u8];
+            // start of the filler payload (the trailing free box)
+            let filler_start = ser.boxes.iter().filter(|b| &b.typ == b"free" && b.path.matches('/').count() == 0).map(|b| b.start + b.hdr).last().unwrap_or(n);
+            let esds: Vec<(usize, u64)> = ser.boxes.iter().filter(|b| &b.typ == b"esds").map(|b| (b.start, b.size)).collect();
+            for (st, sz) in esds {
+                // the ES_Descriptor claims everything up to 8 bytes before the end of the file
+                let len_pos = st + 8 + 4 + 1; // box header, version/flags, tag 0x03
+                let body = len_pos + 4;
+                ser.bytes[len_pos..len_pos + 4].copy_from_slice(&enc4((n - 8).saturating_sub(body) as u32));
+                // the extra descriptor at the end of the esds jumps to the filler
+                let jump_len_pos = st + sz as usize - 4;
+                let after = jump_len_pos + 4;
+                ser.bytes[jump_len_pos..jump_len_pos + 4].copy_from_slice(&enc4(filler_start.saturating_sub(after) as u32));
+            }
+            return ser.bytes;
+        }
+        "many_trafs_long_run" => {
+            // t-1 empty track fragments followed by one with a long run: the cost of reading the
+            // last sample is (samples in the run) x (track fragments) if the lookup is repeated
+            // per earlier sample.
+            let t = (target / 2 / 44).max(2);
+            let msamples = (target / 2 / 4).max(2) as u32;
+            top.push(ftyp);
+            top.push(build_moov(&movie, &offsets, Some(vec![refenc::TrexF { track_id: 1, desc_index: 1, duration: 1, ..Default::default() }])));
+            let mut moof = BoxT::new(b"moof");
+            moof.push(refenc::enc_mfhd(0, 0, 1));
+            for _ in 0..t - 1 {
+                let mut traf = BoxT::new(b"traf");
+                traf.push(refenc::enc_tfhd(&refenc::TfhdF { track_id: 1, ..Default::default() }));
+                traf.push(refenc::enc_trun(&refenc::TrunF { count: 0, sizes: Some(vec![]), ..Default::default() }));
+                moof.push(traf);
+            }
+            let mut traf = BoxT::new(b"traf");
+            traf.push(refenc::enc_tfhd(&refenc::TfhdF { track_id: 1, extra_flags: 0x020000, ..Default::default() }));
+            traf.push(refenc::enc_tfdt(0, 0, 0));
+            traf.push(refenc::enc_trun(&refenc::TrunF { count: msamples, data_offset: Some(0), sizes: Some(vec![0; msamples as usize]), ..Default::default() }));
+            moof.push(traf);
+            top.push(moof);
         }
         "many_meta_rewind" => {
             // many traks each with a meta box whose content is scanned twice. The tags are
